@@ -12,13 +12,15 @@ namespace EupsModel.C05
 open EupsModel EupsModel.ShellEmit
 
 /-- **C05, full clause.**  For every caller's environment `old` and every computed environment `new` — names
-identifiers, the values eups has to write drawn from the claimed alphabet, none of the four `EUPS_*` variables the
-code refuses to unset disappearing — the shell that evaluates the emitted text ends with exactly `new`.  Nothing is
-assumed about the values of `old` or about unchanged values of `new`. -/
+identifiers, the values eups has to write `Writable` (drawn from the claimed alphabet, or of the class eups
+single-quotes: any text without a single quote that holds a blank or one of `< > | & ; ( )`, whatever else it holds —
+`$NAME`, `${NAME}`, backquotes, backslashes, double quotes), none of the four `EUPS_*` variables the code refuses to
+unset disappearing — the shell that evaluates the emitted text ends with exactly `new`.  Nothing is assumed about the
+values of `old` or about unchanged values of `new`. -/
 theorem C05_roundtrip (old new : Env)
     (hold : ∀ p ∈ old, isIdent p.1 = true) (hnew : ∀ p ∈ new, isIdent p.1 = true)
     (hdict : (new.map (·.1)).Nodup)
-    (halpha : ∀ p ∈ new, old.get p.1 ≠ some p.2 → InAlphabet p.2)
+    (halpha : ∀ p ∈ new, old.get p.1 ≠ some p.2 → Writable p.2)
     (hprot : ∀ k, isProtected k = true → old.has k = true → new.has k = true) :
     ∃ e, shEval old (emitText (OldEnv.ofEnv old) new) = some e ∧ SameEnv e new := by
   have := roundtrip_tracks (OldEnv.ofEnv old) old new (tracks_ofEnv old) hold hnew hdict
@@ -30,7 +32,7 @@ theorem C05_roundtrip (old new : Env)
 theorem C05_roundtrip_printed (old new : Env)
     (hold : ∀ p ∈ old, isIdent p.1 = true) (hnew : ∀ p ∈ new, isIdent p.1 = true)
     (hdict : (new.map (·.1)).Nodup)
-    (halpha : ∀ p ∈ new, old.get p.1 ≠ some p.2 → InAlphabet p.2)
+    (halpha : ∀ p ∈ new, old.get p.1 ≠ some p.2 → Writable p.2)
     (hprot : ∀ k, isProtected k = true → old.has k = true → new.has k = true) :
     ∃ e, shEval old (emitText (OldEnv.ofEnv old) new ++ [10]) = some e ∧ SameEnv e new := by
   have := roundtrip_tracks (OldEnv.ofEnv old) old new (tracks_ofEnv old) hold hnew hdict
@@ -52,6 +54,28 @@ example :
               (Str.ofString "E", []), (Str.ofString "X", Str.ofString "a;b\nc")] := by
   decide
 
+set_option maxRecDepth 20000 in
+/-- Non-vacuity for the class of values eups single-quotes (`Writable`'s second disjunct): values that hold, next to
+a blank or a parenthesis, `${NAME}`, `$NAME`, a backquote, a backslash and a double quote — all literal inside the
+single quotes. -/
+example :
+    let v1 := Str.ofString "-L${PRODUCT_DIR}/lib -Wl,-rpath,$ORIGIN/../lib"
+    let v2 := Str.ofString "(tool) $ "
+    let v3 := Str.ofString "say \"hi\" > `tty` \\n"
+    Writable v1 ∧ Writable v2 ∧ Writable v3 ∧ ¬ InAlphabet v1 ∧
+      emitText (OldEnv.ofEnv []) [(Str.ofString "LDFLAGS", v1), (Str.ofString "P", v2), (Str.ofString "Q", v3)] =
+        Str.ofString "export LDFLAGS='-L${PRODUCT_DIR}/lib -Wl,-rpath,$ORIGIN/../lib';\nexport P='(tool) $ ';\nexport Q='say \"hi\" > `tty` \\n'" ∧
+      shEval [] (emitText (OldEnv.ofEnv []) [(Str.ofString "LDFLAGS", v1), (Str.ofString "P", v2), (Str.ofString "Q", v3)]) =
+        some [(Str.ofString "LDFLAGS", v1), (Str.ofString "P", v2), (Str.ofString "Q", v3)] := by
+  unfold Writable InAlphabet
+  decide
+
+/-- a value with `$` that eups does *not* quote (no blank, no metacharacter) is outside the claim, and so is any value
+holding a single quote -/
+example : ¬ Writable (Str.ofString "$ORIGIN/../lib") ∧ ¬ Writable (Str.ofString "it's a $x") := by
+  unfold Writable InAlphabet
+  decide
+
 /-- **`--force`, repaired tree (D9).**  After any sequence of table actions (`envSet`, `envPrepend`/`envAppend`,
 `envUnset`, each in its own direction, with or without `--force`) started from the caller's environment `base`,
 the emitted text evaluated *from `base`* yields the computed environment. -/
@@ -60,7 +84,7 @@ theorem C05_force_roundtrip (acts : List Act) (base : Env)
     (hnew : ∀ p ∈ (runActs false acts base).cur, isIdent p.1 = true)
     (hdict : ((runActs false acts base).cur.map (·.1)).Nodup)
     (halpha : ∀ p ∈ (runActs false acts base).cur,
-      (runActs false acts base).old.lookup p.1 ≠ some (some p.2) → InAlphabet p.2)
+      (runActs false acts base).old.lookup p.1 ≠ some (some p.2) → Writable p.2)
     (hprot : ∀ k, isProtected k = true → base.has k = true → (runActs false acts base).cur.has k = true) :
     ∃ e, shEval base (emitText (runActs false acts base).old (runActs false acts base).cur) = some e ∧
       SameEnv e (runActs false acts base).cur := by
@@ -121,7 +145,7 @@ exactly `new`, even when an alias shares its name with a variable. -/
 theorem C05_roundtrip_alias_removal (old new : Env) (oldAliases : List (Str × Option Str))
     (hold : ∀ p ∈ old, isIdent p.1 = true) (hnew : ∀ p ∈ new, isIdent p.1 = true)
     (hdict : (new.map (·.1)).Nodup)
-    (halpha : ∀ p ∈ new, old.get p.1 ≠ some p.2 → InAlphabet p.2)
+    (halpha : ∀ p ∈ new, old.get p.1 ≠ some p.2 → Writable p.2)
     (hprot : ∀ k, isProtected k = true → old.has k = true → new.has k = true)
     (hal : ∀ p ∈ oldAliases, isIdent p.1 = true) :
     ∃ cmds e, emit {} (OldEnv.ofEnv old) new [] oldAliases = some cmds ∧
@@ -161,7 +185,7 @@ three variables the caller had is unset, whether `Eups.setup` kept, changed or h
 theorem C05_roundtrip_unsetup_eups (old new : Env)
     (hold : ∀ p ∈ old, isIdent p.1 = true) (hnew : ∀ p ∈ finalEnv unsetupEups new, isIdent p.1 = true)
     (hdict : ((finalEnv unsetupEups new).map (·.1)).Nodup)
-    (halpha : ∀ p ∈ finalEnv unsetupEups new, old.get p.1 ≠ some p.2 → InAlphabet p.2) :
+    (halpha : ∀ p ∈ finalEnv unsetupEups new, old.get p.1 ≠ some p.2 → Writable p.2) :
     ∃ cmds e, emit unsetupEups (OldEnv.ofEnv old) new [] [] = some cmds ∧
       shEval old (join cmds) = some e ∧ SameEnv e (finalEnv unsetupEups new) := by
   have hgood := emitVarsOn_good unsetupEups (OldEnv.ofEnv old) old (finalEnv unsetupEups new) (tracks_ofEnv old)
@@ -273,7 +297,7 @@ theorem C05_roundtrip_aliases (old new funcs0 : Env) (aliases : List (Str × Str
     (nl : Bool)
     (hold : ∀ p ∈ old, isIdent p.1 = true) (holdnd : (old.map (·.1)).Nodup)
     (hnew : ∀ p ∈ new, isIdent p.1 = true) (hdict : (new.map (·.1)).Nodup)
-    (halpha : ∀ p ∈ new, old.get p.1 ≠ some p.2 → InAlphabet p.2)
+    (halpha : ∀ p ∈ new, old.get p.1 ≠ some p.2 → Writable p.2)
     (hprot : ∀ k, isProtected k = true → old.has k = true → new.has k = true)
     (hal : ∀ p ∈ aliases, fnNameOk p.1 = true ∧ SimpleBody p.2) (haldict : (aliases.map (·.1)).Nodup)
     (hoal : ∀ p ∈ oldAliases, isIdent p.1 = true)
@@ -288,7 +312,7 @@ theorem C05_roundtrip_aliases (old new funcs0 : Env) (aliases : List (Str × Str
   have hcm : emitCmds {} (OldEnv.ofEnv old) new aliases oldAliases =
       emitVarsOn {} (OldEnv.ofEnv old) new ++ emitAliases aliases oldAliases := by
     simp [emitCmds, emitVars, finalEnv]
-  have halpha' : ∀ p ∈ new, (OldEnv.ofEnv old).lookup p.1 ≠ some (some p.2) → InAlphabet p.2 :=
+  have halpha' : ∀ p ∈ new, (OldEnv.ofEnv old).lookup p.1 ≠ some (some p.2) → Writable p.2 :=
     fun p hp hl => halpha p hp (by intro hg; apply hl; rw [lookup_ofEnv, hg]; rfl)
   have hgs : GoodSeq old funcs0 (emitCmds {} (OldEnv.ofEnv old) new aliases oldAliases) := by
     rw [hcm, goodSeq_append]
@@ -376,11 +400,11 @@ theorem C05_noaction_prints (o : Opts) (ho : o.noaction = true) (hsh : o.shell =
       shEvalF old funcs0 (join cmds ++ (if nl then [10] else [])) = some r ∧
       r.sh.env = old ∧ r.funcs = funcs0 ∧ r.status = 0 ∧
       r.out = (emitVars o (OldEnv.ofEnv old) new).map Cmd.text := by
-  have hgood := emitVarsOn_good o (OldEnv.ofEnv old) old (finalEnv o new) (tracks_ofEnv old) hold hnew
+  have hgood := emitVarsOn_goodA o (OldEnv.ofEnv old) old (finalEnv o new) (tracks_ofEnv old) hold hnew
     (fun p hp hl => halpha p hp (by intro hg; apply hl; rw [lookup_ofEnv, hg]; rfl))
   have hcm : emitCmds o (OldEnv.ofEnv old) new [] [] = emitVars o (OldEnv.ofEnv old) new := by
     simp [emitCmds, emitAliases]
-  have hrender : ∀ l : List Cmd, (∀ c ∈ l, c.Good) → l.mapM (render o) = some (l.map fun c => echoText c.text) := by
+  have hrender : ∀ l : List Cmd, (∀ c ∈ l, c.GoodA) → l.mapM (render o) = some (l.map fun c => echoText c.text) := by
     intro l
     induction l with
     | nil => intro _; rfl
@@ -388,7 +412,7 @@ theorem C05_noaction_prints (o : Opts) (ho : o.noaction = true) (hsh : o.shell =
       intro hg
       have hc : render o c = some (echoText c.text) := by
         have := hg c (by simp)
-        cases c <;> simp_all [render, echoWrap, echoText, Cmd.text, Cmd.Good]
+        cases c <;> simp_all [render, echoWrap, echoText, Cmd.text, Cmd.GoodA]
       simp [List.mapM_cons, hc, ih (fun d hd => hg d (by simp [hd]))]
   have hev := shEvalF_join_echo ((emitVars o (OldEnv.ofEnv old) new).map Cmd.text) nl old funcs0 [] 0
     (by
